@@ -248,3 +248,911 @@ Proof.
   unfold set_index. destruct a; try apply pure_fail; pure_tac.
   intros; sw_rw; reflexivity.
 Qed.
+
+Ltac pure_auto := repeat first [ pure_known | pure_step ]; try (intros; sw_rw; reflexivity).
+
+Lemma pure_str_of v : pure_op (str_of v).
+Proof. unfold str_of. pure_auto. Qed.
+
+Lemma pure_call_builtin b args kwargs : pure_op (call_builtin b args kwargs).
+Proof.
+  unfold call_builtin. destruct kwargs; [|apply pure_fail].
+  repeat match goal with |- pure_op (if ?c then _ else _) => destruct c end;
+  try apply pure_fail.
+  all: try (apply pure_bind; [apply pure_str_of|intro; apply pure_ret]).
+  all: pure_auto.
+  all: apply pure_str_of.
+Qed.
+
+Lemma pure_call_method recv m args : pure_op (call_method recv m args).
+Proof.
+  unfold call_method. destruct recv; try apply pure_fail.
+  - repeat match goal with |- pure_op (if ?c then _ else _) => destruct c end; pure_auto.
+  - apply pure_bind; [apply pure_get_list|intro xs].
+    repeat match goal with |- pure_op (if ?c then _ else _) => destruct c end; pure_auto.
+  - apply pure_bind; [apply pure_get_dict|intro kvs].
+    apply pure_get_state.
+    + intro s0. repeat match goal with |- pure_op (if ?c then _ else _) => destruct c end; pure_auto.
+    + intros c k s0 s1.
+      repeat match goal with |- (if ?c then _ else _) _ = _ => destruct c end;
+      repeat match goal with |- (match ?x with _ => _ end) _ = _ => destruct x end;
+      sw_rw; try reflexivity.
+      unfold bind at 1 3. destruct (get_dict a0 s1); try reflexivity. sw_rw. reflexivity.
+Qed.
+
+Lemma pure_call_method_kw recv m args kwargs : pure_op (call_method_kw recv m args kwargs).
+Proof.
+  unfold call_method_kw. destruct kwargs; [apply pure_call_method|]. destruct recv; pure_auto.
+Qed.
+
+Lemma pure_aug_result o a b : pure_op (aug_result o a b).
+Proof.
+  unfold aug_result, aug_list_inplace. destruct o; try apply pure_binop_eval.
+  destruct a; try apply pure_binop_eval. pure_auto.
+Qed.
+
+(* ================================================================================================================ *)
+(* Part B: the relation between a state of the reference interpreter and a state of the slot machine.
+   Values, list and dict addresses, closure addresses and the transcript are EQUAL on both sides; the reference
+   has one cell per variable, the machine has frame slots, module slots and (lazily allocated) captured cells.
+   `r a c` relates the reference cell `a` of a captured variable to the machine cell `c`. *)
+Definition rho := nat -> nat -> Prop.
+Definition sub (r r' : rho) : Prop := forall a c, r a c -> r' a c.
+Definition dom (r : rho) (a : nat) : Prop := exists c, r a c.
+Lemma sub_refl r : sub r r. Proof. intros a c H. exact H. Qed.
+Lemma sub_trans r1 r2 r3 : sub r1 r2 -> sub r2 r3 -> sub r1 r3. Proof. intros H1 H2 a c H. auto. Qed.
+
+Definition erase_default (p : param) : param := match p with PNormal x _ => PNormal x None | _ => p end.
+
+Definition locals_of (b : body) : list string := match b with BStmts ss => body_names ss | BExpr _ => [] end.
+
+Definition own (en : env) (sc : scope) (a : nat) : Prop :=
+  exists x e, sassoc x (sc_entries sc) = Some e /\ lookup x en = Some a.
+Definition vslot (sc : scope) (i : nat) : Prop := exists x k, sassoc x (sc_entries sc) = Some (i, k).
+
+Definition is_unbound (e : err) : bool := match e with Unbound => true | _ => false end.
+
+Section Sim.
+Variable genv : env.
+Variable mods : list string.
+Hypothesis genv_nodup : NoDup (map snd genv).
+Hypothesis genv_mods : forall x, sidx x mods = None -> lookup x genv = None.
+
+Notation cexprT := (cexpr true mods).
+Notation cstmtT := (cstmt true mods).
+
+Definition body_compiled (sc' : scope) (n : nat) (b : body) (b' : sbody) (kf : nat) : Prop :=
+  match b, b' with
+  | BStmts ss, SBStmts ss' => omapS (cstmtT sc') n ss = Some (ss', kf)
+  | BExpr e, SBExpr e' => cexprT sc' n e = Some (e', kf)
+  | _, _ => False
+  end.
+
+Inductive clo_rel (r : rho) (N : nat) (cl : closure) (scl : sclosure) : Prop :=
+| CloRel (cr_sc cr_sc' : scope) (cr_slotnames : list string) (cr_capt : string -> bool) (cr_free : list string)
+    (cr_n : nat)
+    (cr_params : sc_params scl = map erase_default (c_params cl))
+    (cr_dflts : sc_defaults scl = c_defaults cl)
+    (cr_pnd : NoDup (map param_name (c_params cl)))
+    (cr_names : forall x, In x cr_slotnames <-> In x (map param_name (c_params cl) ++ locals_of (c_body cl)))
+    (cr_snd : NoDup cr_slotnames)
+    (cr_scope : fun_scope cr_sc cr_slotnames cr_capt cr_free = Some (cr_sc', di_parents (sc_info scl), cr_n))
+    (cr_dnames : di_names (sc_info scl) = cr_slotnames)
+    (cr_wrap : di_wrap (sc_info scl) = wrap_slots cr_slotnames (map param_name (c_params cl)) cr_capt)
+    (cr_body : body_compiled cr_sc' cr_n (c_body cl) (sc_body scl) (di_nslots (sc_info scl)))
+    (cr_end : NoDup (map snd (c_env cl)))
+    (cr_ebound : forall a, In a (map snd (c_env cl)) -> a < N)
+    (cr_copied : Forall2 (fun x c => exists a, lookup x (c_env cl) = Some a /\ r a c)
+                         (filter (is_local cr_sc) (dedup cr_free)) (sc_captured scl))
+    (cr_outer : forall x, is_local cr_sc x = false -> mem x (sc_hidden cr_sc) = false ->
+                          lookup x (c_env cl) = lookup x genv).
+
+Record GInv (r : rho) (s : state) (t : sstate) : Prop := {
+  g_lists : lists s = lists (base t);
+  g_dicts : dicts s = dicts (base t);
+  g_out : out s = out (base t);
+  g_fun : forall a c c', r a c -> r a c' -> c = c';
+  g_inj : forall a a' c, r a c -> r a' c -> a = a';
+  g_cells : forall a c, r a c -> a < length (cells s) /\ c < length (cells (base t)) /\
+                                  nth_error (cells s) a = nth_error (cells (base t)) c /\ ~ In a (map snd genv);
+  g_genv : forall a, In a (map snd genv) -> a < length (cells s);
+  g_mods : forall x j, sidx x mods = Some j ->
+             exists a o, lookup x genv = Some a /\ nth_error (cells s) a = Some o /\ nth_error (smods t) j = Some o;
+  g_clen : length (clos s) = length (sclos t);
+  g_clos : forall k cl scl, nth_error (clos s) k = Some cl -> nth_error (sclos t) k = Some scl ->
+             clo_rel r (length (cells s)) cl scl
+}.
+
+Record FrameRel (en : env) (sc : scope) (r : rho) (s : state) (t : sstate) : Prop := {
+  f_nodup : NoDup (map snd en);
+  f_bound : forall a, In a (map snd en) -> a < length (cells s);
+  f_sinj : forall x y i k k', sassoc x (sc_entries sc) = Some (i, k) -> sassoc y (sc_entries sc) = Some (i, k') -> x = y;
+  f_vars : forall x,
+    match sassoc x (sc_entries sc) with
+    | Some (i, false) => exists a, lookup x en = Some a /\ ~ dom r a /\ ~ In a (map snd genv) /\
+                                   (forall v, nth_error (cells s) a = Some (Some v) -> fget (cur t) i = FVal v)
+    | Some (i, true) => exists a, lookup x en = Some a /\ ~ In a (map snd genv) /\
+                                  ((fget (cur t) i = FEmpty /\ nth_error (cells s) a = Some None /\ ~ dom r a) \/
+                                   (exists c, fget (cur t) i = FCell c /\ r a c))
+    | None => mem x (sc_hidden sc) = false -> lookup x en = lookup x genv
+    end
+}.
+
+(* what a computation may have done to the reference cells and to the cell relation:
+   O = the cells of the variables visible in the current frame *)
+Record PostC (O : nat -> Prop) (r r' : rho) (s s' : state) : Prop := {
+  p_sub : sub r r';
+  p_len : length (cells s) <= length (cells s');
+  p_cells : forall a, a < length (cells s) -> ~ O a -> ~ dom r a -> ~ In a (map snd genv) ->
+              nth_error (cells s') a = nth_error (cells s) a;
+  p_dom : forall a, dom r' a -> dom r a \/ length (cells s) <= a \/ O a
+}.
+
+Lemma PostC_refl O r s : PostC O r r s s.
+Proof. constructor; auto using sub_refl. Qed.
+
+Lemma PostC_trans O r1 r2 r3 s1 s2 s3 : PostC O r1 r2 s1 s2 -> PostC O r2 r3 s2 s3 -> PostC O r1 r3 s1 s3.
+Proof.
+  intros [A1 A2 A3 A4] [B1 B2 B3 B4]. constructor.
+  - eapply sub_trans; eassumption.
+  - lia.
+  - intros a Ha HO Hd Hg. rewrite B3; auto; try lia.
+    intros Hd2. destruct (A4 a Hd2) as [?|[?|?]]; auto; lia.
+  - intros a Hd. destruct (B4 a Hd) as [H|[H|H]]; auto.
+    right; left; lia.
+Qed.
+
+Lemma PostC_weaken (O O' : nat -> Prop) r r' s s' : (forall a, O a -> O' a) -> PostC O r r' s s' -> PostC O' r r' s s'.
+Proof.
+  intros H [A1 A2 A3 A4]. constructor; auto.
+  intros a Hd. destruct (A4 a Hd) as [?|[?|?]]; auto.
+Qed.
+
+Class GenOK (Fi : rho -> state -> sstate -> Prop) (FP : sstate -> sstate -> Prop) : Prop := {
+  FP_refl : forall t, FP t t;
+  FP_trans : forall t1 t2 t3, FP t1 t2 -> FP t2 t3 -> FP t1 t3;
+  FP_base : forall t b, FP t (with_base t b);
+  Fi_stable : forall r s t s' b, Fi r s t -> cells s' = cells s -> Fi r s' (with_base t b)
+}.
+
+Section Gen.
+  (* Fi: the invariant of the current frame; O: its cells; FP: what may have happened to the current frame *)
+  Variable Fi : rho -> state -> sstate -> Prop.
+  Variable O : nat -> Prop.
+  Variable FP : sstate -> sstate -> Prop.
+  Context {Hok : GenOK Fi FP}.
+
+  Definition rres {A} (r : rho) (s : state) (t : sstate) (x : res A) (y : sres A) : Prop :=
+    match x with
+    | Ok a s' => match y with
+                 | SOk b t' => a = b /\ exists r', GInv r' s' t' /\ Fi r' s' t' /\ PostC O r r' s s' /\ FP t t'
+                 | _ => False end
+    | Fail e l s' => if is_unbound e then True
+                     else match y with
+                          | SFail e' l' t' => e = e' /\ l = l' /\ out s' = out (base t')
+                          | _ => False end
+    | OutOfFuel => match y with SOutOfFuel => True | _ => False end
+    end.
+
+  Definition sim {A} (m : M A) (sm : SM A) : Prop :=
+    forall r s t, GInv r s t -> Fi r s t -> rres r s t (m s) (sm t).
+
+  Lemma rres_compose {A} r r1 s s1 t t1 (x : res A) y :
+    PostC O r r1 s s1 -> FP t t1 -> rres r1 s1 t1 x y -> rres r s t x y.
+  Proof.
+    intros HP HF H. unfold rres in *. destruct x as [a s2|e l s2|]; auto.
+    destruct y as [b t2|?|]; auto. destruct H as [E (r2 & G & HI & P & F)]. split; [exact E|].
+    exists r2. split; [exact G|]. split; [exact HI|]. split; [eapply PostC_trans; eassumption|eapply FP_trans; eassumption].
+  Qed.
+
+  Lemma sim_ret {A} (a : A) : sim (ret a) (sret a).
+  Proof.
+    intros r s t G HI. cbn. split; [reflexivity|]. exists r. split; [exact G|]. split; [exact HI|]. split; [apply PostC_refl|apply FP_refl].
+  Qed.
+
+  Lemma sim_fail {A} e : sim (@fail A e) (@sfail A e).
+  Proof. intros r s t G HI. cbn. destruct (is_unbound e); auto. repeat split; auto. apply (g_out _ _ _ G). Qed.
+
+  Lemma sim_bind {A B} (m : M A) (sm : SM A) (f : A -> M B) (g : A -> SM B) :
+    sim m sm -> (forall a, sim (f a) (g a)) -> sim (bind m f) (sbind sm g).
+  Proof.
+    intros Hm Hf r s t G HI. specialize (Hm r s t G HI). unfold bind, sbind, rres in *.
+    destruct (m s) as [a s1|e l s1|].
+    - destruct (sm t) as [b t1|?|]; try contradiction. destruct Hm as [<- (r1 & G1 & I1 & P1 & F1)].
+      eapply rres_compose; [exact P1|exact F1|]. apply Hf; assumption.
+    - destruct (is_unbound e); auto. destruct (sm t); try (exfalso; exact Hm). exact Hm.
+    - destruct (sm t); try (exfalso; exact Hm). exact I.
+  Qed.
+
+  Lemma sim_mapM {A B} (f : A -> M B) (g : A -> SM B) l : (forall x, sim (f x) (g x)) -> sim (mapM f l) (smapM g l).
+  Proof.
+    intros H. induction l as [|x xs IH]; cbn [mapM smapM]; [apply sim_ret|].
+    apply sim_bind; [apply H|]. intros y. apply sim_bind; [apply IH|]. intros ys. apply sim_ret.
+  Qed.
+
+  (* elementwise, for lists translated by the resolver *)
+  Lemma sim_mapM2 {A A' B} (R : A -> A' -> Prop) (f : A -> M B) (g : A' -> SM B) l l' :
+    Forall2 R l l' -> (forall x x', R x x' -> sim (f x) (g x')) -> sim (mapM f l) (smapM g l').
+  Proof.
+    intros F H. induction F as [|x x' l l' Hx _ IH]; cbn [mapM smapM]; [apply sim_ret|].
+    apply sim_bind; [apply H; exact Hx|]. intros y. apply sim_bind; [apply IH|]. intros ys. apply sim_ret.
+  Qed.
+
+  Lemma core_sw r s t : GInv r s t -> s = sw (cells s) (clos s) (base t).
+  Proof. intros G. destruct s. unfold sw. cbn. rewrite <- (g_lists _ _ _ G), <- (g_dicts _ _ _ G), <- (g_out _ _ _ G). reflexivity. Qed.
+
+  Lemma GInv_pure r s t s' b' :
+    GInv r s t -> s' = sw (cells s) (clos s) b' -> cells b' = cells (base t) -> GInv r s' (with_base t b').
+  Proof.
+    intros G -> Hc. destruct G. constructor; cbn [sw with_base base sclos smods cur lists dicts out cells clos]; auto.
+    - intros a c H. rewrite Hc. auto.
+  Qed.
+
+  (* a value-level operation of Core, run on both sides *)
+  Lemma sim_lift {A} (m : M A) : pure_op m -> sim m (lift m).
+  Proof.
+    intros Hp r s t G HI. unfold lift, rres.
+    pose proof (core_sw _ _ _ G) as Es.
+    pose proof (Hp (cells s) (clos s) (base t)) as E1. rewrite <- Es in E1.
+    pose proof (Hp (cells (base t)) (clos (base t)) (base t)) as E2. rewrite sw_id in E2.
+    rewrite E1. destruct (m (base t)) as [a b|e l b|]; cbn [rmap] in *.
+    - split; [reflexivity|]. exists r.
+      assert (Hc : cells b = cells (base t)) by (inversion E2 as [E3]; rewrite E3 at 1; reflexivity).
+      split; [exact (GInv_pure r s t _ b G eq_refl Hc)|]. split; [apply Fi_stable with (s := s); [exact HI|reflexivity]|].
+      split; [|apply FP_base]. constructor; auto using sub_refl.
+    - destruct (is_unbound e); auto.
+    - exact I.
+  Qed.
+
+  Lemma sim_at_line {A} ln (m : M A) (sm : SM A) : sim m sm -> sim (at_line ln m) (sat_line ln sm).
+  Proof.
+    intros H r s t G HI. specialize (H r s t G HI). unfold at_line, sat_line, rres in *.
+    destruct (m s) as [a s1|e l s1|].
+    - destruct (sm t); try contradiction. exact H.
+    - destruct (is_unbound e) eqn:Eu.
+      + destruct l; cbn; rewrite Eu; exact I.
+      + destruct (sm t) as [|e' l' t1|]; try contradiction. destruct H as (<- & <- & Ho).
+        destruct l; cbn; rewrite Eu; auto.
+    - destruct (sm t); try contradiction. exact I.
+  Qed.
+
+  Lemma out_iter_lock v d s u s' : iter_lock v d s = Ok u s' -> out s' = out s.
+  Proof.
+    unfold iter_lock. destruct v; try (intros H; inversion H; reflexivity).
+    - destruct (nth_error (lists s) a) as [[? ?]|]; intros H; inversion H; reflexivity.
+    - destruct (nth_error (dicts s) a) as [[? ?]|]; intros H; inversion H; reflexivity.
+  Qed.
+  Lemma iter_lock_ok v d s : exists s', iter_lock v d s = Ok tt s'.
+  Proof.
+    unfold iter_lock. destruct v; eauto.
+    - destruct (nth_error (lists s) a) as [[? ?]|]; eauto.
+    - destruct (nth_error (dicts s) a) as [[? ?]|]; eauto.
+  Qed.
+
+  Lemma sim_with_lock {A} v (m : M A) (sm : SM A) : sim m sm -> sim (with_lock v m) (swith_lock v sm).
+  Proof.
+    intros H r s t G HI. unfold with_lock, swith_lock.
+    pose proof (sim_lift (iter_lock v true) (pure_iter_lock v true) r s t G HI) as L1. unfold rres in L1.
+    destruct (iter_lock_ok v true s) as [s1 E1]. rewrite E1 in *.
+    destruct (lift (iter_lock v true) t) as [u t1|?|]; try contradiction.
+    destruct L1 as [_ (r1 & G1 & I1 & P1 & F1)].
+    specialize (H r1 s1 t1 G1 I1). unfold rres in H.
+    destruct (m s1) as [a s2|e l s2|].
+    - destruct (sm t1) as [b t2|?|]; try contradiction. destruct H as [<- (r2 & G2 & I2 & P2 & F2)].
+      pose proof (sim_lift (iter_lock v false) (pure_iter_lock v false) r2 s2 t2 G2 I2) as L2. unfold rres in L2.
+      destruct (iter_lock_ok v false s2) as [s3 E3]. rewrite E3 in *.
+      destruct (lift (iter_lock v false) t2) as [u' t3|?|]; try contradiction.
+      destruct L2 as [_ (r3 & G3 & I3 & P3 & F3)]. cbn. split; [reflexivity|]. exists r3.
+      split; [exact G3|]. split; [exact I3|]. split.
+      + eapply PostC_trans; [exact P1|]. eapply PostC_trans; eassumption.
+      + eapply FP_trans; [exact F1|]. eapply FP_trans; eassumption.
+    - unfold rres. destruct (is_unbound e) eqn:Eu.
+      + destruct (iter_lock v false s2); cbn; rewrite ?Eu; auto.
+      + destruct (sm t1) as [|e' l' t2|]; try contradiction. destruct H as (<- & <- & Ho).
+        destruct (iter_lock_ok v false s2) as [s3 E3]. rewrite E3. cbn. rewrite Eu.
+        unfold lift. destruct (iter_lock_ok v false (base t2)) as [b3 E4]. rewrite E4. cbn.
+        repeat split; auto. rewrite (out_iter_lock _ _ _ _ _ E3), (out_iter_lock _ _ _ _ _ E4). exact Ho.
+    - destruct (sm t1); try contradiction. exact I.
+  Qed.
+
+  Lemma sim_run_block (ex : stmt -> M ctrl) (sx : sstmt -> SM ctrl) ss ss' :
+    Forall2 (fun st st' => sim (ex st) (sx st')) ss ss' -> sim (run_block ex ss) (srun_block sx ss').
+  Proof.
+    intros F. induction F as [|st st' ss ss' H _ IH]; cbn [run_block srun_block]; [apply sim_ret|].
+    apply sim_bind; [exact H|]. intros c. destruct c; try apply sim_ret. exact IH.
+  Qed.
+
+  Lemma sim_for_loop (b : value -> M ctrl) (sb : value -> SM ctrl) vs :
+    (forall v, sim (b v) (sb v)) -> sim (for_loop b vs) (sfor_loop sb vs).
+  Proof.
+    intros H. induction vs as [|v vs IH]; cbn [for_loop sfor_loop]; [apply sim_ret|].
+    apply sim_bind; [apply H|]. intros c. destruct c; try apply sim_ret; exact IH.
+  Qed.
+
+  (* truth of a value: `s <- get_state ;; if truth s x ...` against `b <~ struth x ;; if b ...` *)
+  Lemma sim_truth {A} x (f : bool -> M A) (g : bool -> SM A) :
+    (forall b, sim (f b) (g b)) -> sim (s <- get_state ;; f (truth s x)) (sbind (struth x) g).
+  Proof.
+    intros H r s t G HI.
+    assert (E : (s0 <- get_state ;; f (truth s0 x)) s = bind (s0 <- get_state ;; ret (truth s0 x)) f s) by reflexivity.
+    rewrite E. unfold struth. apply sim_bind; [apply sim_lift, pure_truth|exact H|exact G|exact HI].
+  Qed.
+End Gen.
+
+(* ================================================================================================================ *)
+(* Part C.1: lists, frames, environments *)
+Lemma fget_fset_eq fr i x : fget (fset fr i x) i = x.
+Proof.
+  unfold fget. revert fr. induction i as [|i IH]; intros [|h r]; cbn; auto.
+Qed.
+Lemma fget_fset_neq fr i j x : i <> j -> fget (fset fr i x) j = fget fr j.
+Proof.
+  unfold fget. revert fr j. induction i as [|i IH]; intros [|h r] [|j] H; cbn; auto; try congruence.
+  - destruct j; reflexivity.
+  - rewrite IH by congruence. destruct j; reflexivity.
+Qed.
+Lemma fget_repeat n i : fget (repeat FEmpty n) i = FEmpty.
+Proof. unfold fget. revert i. induction n; intros [|i]; cbn; auto. Qed.
+
+Lemma nth_error_upd_eq {X} (l : list X) a x : a < length l -> nth_error (upd l a x) a = Some x.
+Proof. revert a. induction l as [|h t IH]; intros [|a] H; cbn in *; try lia; auto. apply IH. lia. Qed.
+Lemma nth_error_upd_neq {X} (l : list X) a a' x : a <> a' -> nth_error (upd l a x) a' = nth_error l a'.
+Proof. revert a a'. induction l as [|h t IH]; intros [|a] [|a'] H; cbn; auto; try congruence. Qed.
+Lemma length_upd {X} (l : list X) a x : length (upd l a x) = length l.
+Proof. revert a. induction l as [|h t IH]; intros [|a]; cbn; auto. Qed.
+
+Lemma lookup_app x e1 e2 : lookup x (e1 ++ e2) = match lookup x e1 with Some a => Some a | None => lookup x e2 end.
+Proof. induction e1 as [|[y a] e1 IH]; cbn; auto. destruct (String.eqb x y); auto. Qed.
+Lemma lookup_In x en a : lookup x en = Some a -> In a (map snd en).
+Proof.
+  induction en as [|[y b] en IH]; cbn; [discriminate|]. destruct (String.eqb x y); [intros H; inversion H; auto|auto].
+Qed.
+Lemma lookup_nodup_inj en x y a : NoDup (map snd en) -> lookup x en = Some a -> lookup y en = Some a -> x = y.
+Proof.
+  induction en as [|[z b] en IH]; cbn; [discriminate|]. intros ND Hx Hy. inversion ND as [|? ? Hn ND']; subst.
+  destruct (String.eqb_spec x z), (String.eqb_spec y z); subst; auto.
+  - inversion Hx; subst. exfalso. apply Hn. eapply lookup_In; eauto.
+  - inversion Hy; subst. exfalso. apply Hn. eapply lookup_In; eauto.
+Qed.
+Lemma lookup_none_notin x en : lookup x en = None <-> ~ In x (map fst en).
+Proof.
+  induction en as [|[y b] en IH]; cbn; [tauto|]. destruct (String.eqb_spec x y); subst.
+  - split; [discriminate|]. intros H. exfalso. auto.
+  - rewrite IH. split; [intros H [E|E]; auto|tauto].
+Qed.
+
+Lemma sassoc_app {V} x (l1 l2 : list (string * V)) :
+  sassoc x (l1 ++ l2) = match sassoc x l1 with Some v => Some v | None => sassoc x l2 end.
+Proof. induction l1 as [|[y v] l1 IH]; cbn; auto. destruct (String.eqb x y); auto. Qed.
+Lemma sassoc_none {V} x (l : list (string * V)) : sassoc x l = None <-> ~ In x (map fst l).
+Proof.
+  induction l as [|[y b] l IH]; cbn; [tauto|]. destruct (String.eqb_spec x y); subst.
+  - split; [discriminate|]. intros H. exfalso. auto.
+  - rewrite IH. split; [intros H [E|E]; auto|tauto].
+Qed.
+
+Lemma sidx_lt x l i : sidx x l = Some i -> i < length l.
+Proof.
+  revert i. induction l as [|y l IH]; cbn; [discriminate|]. intros i. destruct (String.eqb x y).
+  - intros H; inversion H; lia.
+  - destruct (sidx x l); cbn; [|discriminate]. intros H; inversion H. specialize (IH _ eq_refl). lia.
+Qed.
+Lemma sidx_nth x l i : sidx x l = Some i -> nth_error l i = Some x.
+Proof.
+  revert i. induction l as [|y l IH]; cbn; [discriminate|]. intros i. destruct (String.eqb_spec x y).
+  - intros H; inversion H; subst; reflexivity.
+  - destruct (sidx x l); cbn; [|discriminate]. intros H; inversion H. cbn. apply IH. reflexivity.
+Qed.
+Lemma sidx_inj x y l i : sidx x l = Some i -> sidx y l = Some i -> x = y.
+Proof. intros H1 H2. apply sidx_nth in H1. apply sidx_nth in H2. congruence. Qed.
+Lemma sidx_none x l : sidx x l = None <-> ~ In x l.
+Proof.
+  induction l as [|y l IH]; cbn; [tauto|]. destruct (String.eqb_spec x y); subst.
+  - split; [discriminate|]. intros H. exfalso. auto.
+  - destruct (sidx x l); cbn.
+    + split; [discriminate|]. intros H. exfalso. apply H. right. apply Decidable.not_not; [|intros C; apply IH in C; discriminate].
+      unfold Decidable.decidable. destruct (in_dec string_dec x l); auto.
+    + split; [|reflexivity]. intros _ [E|E]; [congruence|]. apply IH in E; auto.
+Qed.
+Lemma sidx_some x l : In x l -> exists i, sidx x l = Some i.
+Proof. intros H. destruct (sidx x l) eqn:E; eauto. apply sidx_none in E. contradiction. Qed.
+
+(* entries built from an indexed list of names *)
+Lemma sassoc_indexed (f : string -> bool) x l k :
+  sassoc x (map (fun ix : nat * string => (snd ix, (fst ix, f (snd ix)))) (indexed k l)) =
+  option_map (fun i => (k + i, f x)) (sidx x l).
+Proof.
+  unfold indexed. revert k. induction l as [|y l IH]; intros k; cbn; [reflexivity|].
+  destruct (String.eqb_spec x y); subst; cbn.
+  - rewrite Nat.add_0_r. reflexivity.
+  - rewrite IH. destruct (sidx x l); cbn; [|reflexivity]. do 2 f_equal. lia.
+Qed.
+
+Lemma mem_eq x l : mem x l = existsb (String.eqb x) l.
+Proof. reflexivity. Qed.
+
+Lemma sc_bound_lt sc x i k : sassoc x (sc_entries sc) = Some (i, k) -> i < sc_bound sc.
+Proof.
+  unfold sc_bound. induction (sc_entries sc) as [|[y [j b]] l IH]; cbn [sassoc fold_right fst snd]; [discriminate|].
+  destruct (String.eqb x y).
+  - intros H; inversion H; subst. lia.
+  - intros H. specialize (IH H). lia.
+Qed.
+
+(* the reference interpreter's dedup keeps the same names *)
+Lemma sem_dedup_In l x : In x (Sem.dedup l) <-> In x l.
+Proof.
+  induction l as [|y l IH]; cbn; [tauto|].
+  destruct (existsb (String.eqb y) l) eqn:E.
+  - rewrite IH. split; auto. intros [->|H]; auto.
+    apply existsb_exists in E. destruct E as (z & Hz & Ez). apply String.eqb_eq in Ez. subst. exact Hz.
+  - cbn. rewrite IH. tauto.
+Qed.
+
+(* alloc_cells: fresh consecutive cells *)
+Lemma alloc_cells_spec names s :
+  exists new, alloc_cells names s =
+    Ok new {| lists := lists s; dicts := dicts s; cells := cells s ++ repeat None (length names); clos := clos s; out := out s |} /\
+    map fst new = names /\ map snd new = seq (length (cells s)) (length names).
+Proof.
+  revert s. induction names as [|x names IH]; intros s; cbn [alloc_cells].
+  - exists []. cbn. rewrite app_nil_r. destruct s; auto.
+  - unfold bind at 1. cbn [alloc_cell].
+    destruct (IH {| lists := lists s; dicts := dicts s; cells := cells s ++ [None]; clos := clos s; out := out s |})
+      as (new & E & Hf & Hs).
+    unfold bind. rewrite E. cbn [ret lists dicts cells clos out] in *.
+    exists ((x, length (cells s)) :: new). split; [|split].
+    + rewrite <- app_assoc. reflexivity.
+    + cbn. rewrite Hf. reflexivity.
+    + cbn. rewrite Hs. rewrite app_length. cbn. rewrite Nat.add_1_r. reflexivity.
+Qed.
+
+(* ================================================================================================================ *)
+(* Part C.2: the two instances of the generic simulation: inside a frame, and across a call *)
+Definition FPf (sc : scope) (t t' : sstate) : Prop :=
+  forall i, i < sc_bound sc -> ~ vslot sc i -> fget (cur t') i = fget (cur t) i.
+Definition FPc (t t' : sstate) : Prop := cur t' = cur t.
+Definition noframe (r : rho) (s : state) (t : sstate) : Prop := True.
+Definition nocells (a : nat) : Prop := False.
+
+Lemma FrameRel_stable en sc r s t s' b : FrameRel en sc r s t -> cells s' = cells s -> FrameRel en sc r s' (with_base t b).
+Proof.
+  intros [A1 A2 A3 A4] E. constructor; auto.
+  - rewrite E. exact A2.
+  - intros x. specialize (A4 x). cbn [with_base cur]. rewrite E. exact A4.
+Qed.
+
+#[local] Instance okF en sc : GenOK (FrameRel en sc) (FPf sc).
+Proof.
+  constructor.
+  - intros t i _ _. reflexivity.
+  - intros t1 t2 t3 H1 H2 i Hb Hv. rewrite H2, H1; auto.
+  - intros t b i _ _. reflexivity.
+  - intros. apply FrameRel_stable with (s := s); assumption.
+Qed.
+#[local] Instance okC : GenOK noframe FPc.
+Proof.
+  constructor; unfold FPc, noframe; auto.
+  intros t1 t2 t3 H1 H2. congruence.
+Qed.
+
+Notation simF en sc := (sim (FrameRel en sc) (own en sc) (FPf sc)).
+Notation csim := (sim noframe nocells FPc).
+Notation rresF en sc := (rres (FrameRel en sc) (own en sc) (FPf sc)).
+
+Lemma with_base_id t : with_base t (base t) = t.
+Proof. destruct t; reflexivity. Qed.
+
+Lemma rres_ok_refl Fi O FP {Hok : GenOK Fi FP} {A} r s t (a : A) :
+  GInv r s t -> Fi r s t -> rres Fi O FP r s t (Ok a s) (SOk a t).
+Proof. intros G F. cbn. split; [reflexivity|]. exists r. split; [exact G|]. split; [exact F|]. split; [apply PostC_refl|apply FP_refl]. Qed.
+
+(* the frame of a suspended caller is not disturbed by a call *)
+Lemma FrameRel_after_call en sc r r' s s' t t' :
+  FrameRel en sc r s t -> PostC nocells r r' s s' -> cur t' = cur t -> FrameRel en sc r' s' t'.
+Proof.
+  intros [A1 A2 A3 A4] [P1 P2 P3 P4] Ec. constructor; auto.
+  - intros a Ha. specialize (A2 a Ha). lia.
+  - intros x. specialize (A4 x). rewrite Ec. destruct (sassoc x (sc_entries sc)) as [[i [|]]|]; auto.
+    + destruct A4 as (a & La & Hg & Hc). exists a. split; [exact La|]. split; [exact Hg|].
+      pose proof (A2 a (lookup_In _ _ _ La)) as Hlt.
+      destruct Hc as [(E1 & E2 & E3)|(c & E1 & E2)].
+      * left. split; [exact E1|]. split; [rewrite P3; auto|].
+        intros Hd. destruct (P4 a Hd) as [?|[?|[]]]; auto. lia.
+      * right. exists c. auto.
+    + destruct A4 as (a & La & Hd & Hg & Hv). exists a. split; [exact La|].
+      pose proof (A2 a (lookup_In _ _ _ La)) as Hlt.
+      split; [|split; [exact Hg|]].
+      * intros Hd'. destruct (P4 a Hd') as [?|[?|[]]]; auto. lia.
+      * intros v Hv'. apply Hv. rewrite <- P3; auto.
+Qed.
+
+Lemma csim_simF {A} en sc (m : M A) (sm : SM A) : csim m sm -> simF en sc m sm.
+Proof.
+  intros H r s t G F. specialize (H r s t G Logic.I). unfold rres in *.
+  destruct (m s) as [a s1|e l s1|]; auto.
+  destruct (sm t) as [b t1|?|]; auto. destruct H as [E (r1 & G1 & _ & P1 & F1)]. split; [exact E|].
+  exists r1. split; [exact G1|]. split; [eapply FrameRel_after_call; eassumption|].
+  split; [eapply PostC_weaken; [|exact P1]; intros a0 []|].
+  intros i _ _. rewrite F1. reflexivity.
+Qed.
+
+(* ---- state changes --------------------------------------------------------------------------------------------- *)
+(* s1 is s with cell a set to o *)
+Definition cells_upd (s s1 : state) (a : nat) (o : option value) : Prop :=
+  lists s1 = lists s /\ dicts s1 = dicts s /\ out s1 = out s /\ clos s1 = clos s /\
+  length (cells s1) = length (cells s) /\ nth_error (cells s1) a = Some o /\
+  forall a', a' <> a -> nth_error (cells s1) a' = nth_error (cells s) a'.
+
+Lemma cells_upd_set s a v : a < length (cells s) ->
+  cells_upd s {| lists := lists s; dicts := dicts s; cells := upd (cells s) a (Some v); clos := clos s; out := out s |} a (Some v).
+Proof.
+  intros H. unfold cells_upd. cbn. rewrite length_upd. repeat split; auto.
+  - apply nth_error_upd_eq. exact H.
+  - intros a' Hn. apply nth_error_upd_neq. auto.
+Qed.
+Lemma cells_upd_same s a o : nth_error (cells s) a = Some o -> cells_upd s s a o.
+Proof. intros H. unfold cells_upd. repeat split; auto. Qed.
+
+Lemma Forall2_impl' {X Y} (R R' : X -> Y -> Prop) l1 l2 :
+  (forall a b, R a b -> R' a b) -> Forall2 R l1 l2 -> Forall2 R' l1 l2.
+Proof. intros H F. induction F; constructor; auto. Qed.
+
+Lemma clo_rel_mono r r' N N' cl scl : sub r r' -> N <= N' -> clo_rel r N cl scl -> clo_rel r' N' cl scl.
+Proof.
+  intros Hs Hn []. econstructor; eauto.
+  - intros a Ha. specialize (cr_ebound a Ha). lia.
+  - eapply Forall2_impl'; [|exact cr_copied]. intros x c (a & La & Hr). eauto.
+Qed.
+
+(* a write to a cell that is private to a frame: the global invariant does not see it *)
+Lemma GInv_priv_write r s s1 t fr a o :
+  GInv r s t -> cells_upd s s1 a o -> ~ dom r a -> ~ In a (map snd genv) -> GInv r s1 (with_cur t fr).
+Proof.
+  intros G (U1 & U2 & U3 & U4 & U5 & U6 & U7) Hd Hg. destruct G.
+  constructor; cbn [with_cur base sclos smods cur]; try congruence; auto.
+  - intros a' c H. destruct (g_cells0 a' c H) as (B1 & B2 & B3 & B4).
+    assert (a' <> a) by (intros ->; apply Hd; exists c; exact H).
+    rewrite U5, U7 by assumption. auto.
+  - intros a' H. rewrite U5. auto.
+  - intros x j H. destruct (g_mods0 x j H) as (a' & o' & L & E1 & E2). exists a', o'.
+    assert (a' <> a) by (intros ->; apply Hg; eapply lookup_In; eauto).
+    rewrite U7 by assumption. auto.
+  - intros k cl scl H1 H2. rewrite U4 in H1. rewrite U5. eauto.
+Qed.
+
+(* a write through a shared cell *)
+Lemma GInv_shared_write r s s1 t a c o :
+  GInv r s t -> cells_upd s s1 a (Some o) -> r a c ->
+  GInv r s1 (with_base t {| lists := lists (base t); dicts := dicts (base t); cells := upd (cells (base t)) c (Some o);
+                           clos := clos (base t); out := out (base t) |}).
+Proof.
+  intros G (U1 & U2 & U3 & U4 & U5 & U6 & U7) Hr. destruct G.
+  constructor; cbn [with_base base sclos smods cur lists dicts out cells clos]; try congruence; auto.
+  - intros a' c' H. destruct (g_cells0 a' c' H) as (B1 & B2 & B3 & B4). rewrite U5, length_upd.
+    split; [exact B1|]. split; [exact B2|]. split; [|exact B4].
+    destruct (Nat.eq_dec a' a) as [->|Hn].
+    + assert (c' = c) by (eapply g_fun0; eauto). subst c'. rewrite U6, nth_error_upd_eq; auto.
+    + assert (c' <> c) by (intros ->; apply Hn; eapply g_inj0; eauto).
+      rewrite U7, nth_error_upd_neq; auto.
+  - intros a' H. rewrite U5. auto.
+  - intros x j H. destruct (g_mods0 x j H) as (a' & o' & L & E1 & E2). exists a', o'.
+    destruct (g_cells0 a c Hr) as (_ & _ & _ & Hg).
+    assert (a' <> a) by (intros ->; apply Hg; eapply lookup_In; eauto).
+    rewrite U7 by assumption. auto.
+  - intros k cl scl H1 H2. rewrite U4 in H1. rewrite U5. eauto.
+Qed.
+
+Definition ext (r : rho) (a c : nat) : rho := fun a' c' => r a' c' \/ (a' = a /\ c' = c).
+Lemma sub_ext r a c : sub r (ext r a c).
+Proof. intros a' c' H. left. exact H. Qed.
+
+(* a private cell becomes shared: the machine allocates a cell with the same content *)
+Lemma GInv_share_new r s s1 t fr a o :
+  GInv r s t -> cells_upd s s1 a o -> ~ dom r a -> ~ In a (map snd genv) -> a < length (cells s) ->
+  GInv (ext r a (length (cells (base t)))) s1
+       (with_cur (with_base t {| lists := lists (base t); dicts := dicts (base t); cells := cells (base t) ++ [o];
+                                 clos := clos (base t); out := out (base t) |}) fr).
+Proof.
+  intros G (U1 & U2 & U3 & U4 & U5 & U6 & U7) Hd Hg Hlt. destruct G.
+  constructor; cbn [with_cur with_base base sclos smods cur lists dicts out cells clos]; try congruence; auto.
+  - intros a' c c' [H|[-> ->]] [H'|[E ->]]; eauto.
+    + subst a'. exfalso. apply Hd. eexists; eauto.
+    + exfalso. apply Hd. eexists; eauto.
+  - intros a' a'' c [H|[-> ->]] [H'|[-> E]]; eauto.
+    + subst c. destruct (g_cells0 _ _ H) as (_ & B & _). lia.
+    + destruct (g_cells0 _ _ H') as (_ & B & _). lia.
+  - intros a' c [H|[-> ->]].
+    + destruct (g_cells0 a' c H) as (B1 & B2 & B3 & B4). rewrite U5, app_length. cbn.
+      assert (a' <> a) by (intros ->; apply Hd; exists c; exact H).
+      rewrite U7, nth_error_app1 by assumption. repeat split; auto. lia.
+    + rewrite U5, app_length, U6, nth_error_app2, Nat.sub_diag by lia. cbn. repeat split; auto. lia.
+  - intros a' H. rewrite U5. auto.
+  - intros x j H. destruct (g_mods0 x j H) as (a' & o' & L & E1 & E2). exists a', o'.
+    assert (a' <> a) by (intros ->; apply Hg; eapply lookup_In; eauto).
+    rewrite U7 by assumption. auto.
+  - intros k cl scl H1 H2. rewrite U4 in H1. rewrite U5. eapply clo_rel_mono; [apply sub_ext|reflexivity|]. eauto.
+Qed.
+
+(* a write to a module variable *)
+Lemma GInv_mod_write r s s1 t x j a o :
+  GInv r s t -> cells_upd s s1 a (Some o) -> sidx x mods = Some j -> lookup x genv = Some a ->
+  GInv r s1 {| base := base t; sclos := sclos t; smods := upd (smods t) j (Some o); cur := cur t |}.
+Proof.
+  intros G (U1 & U2 & U3 & U4 & U5 & U6 & U7) Hj La. destruct G.
+  constructor; cbn [base sclos smods cur]; try congruence; auto.
+  - intros a' c H. destruct (g_cells0 a' c H) as (B1 & B2 & B3 & B4).
+    assert (a' <> a) by (intros ->; apply B4; eapply lookup_In; eauto).
+    rewrite U5, U7 by assumption. auto.
+  - intros a' H. rewrite U5. auto.
+  - intros y j' H. destruct (g_mods0 y j' H) as (a' & o' & L & E1 & E2).
+    destruct (String.eqb_spec y x) as [->|Hn].
+    + assert (j' = j) by congruence. assert (a' = a) by congruence. subst. exists a, (Some o).
+      split; [exact L|]. split; [exact U6|]. apply nth_error_upd_eq. apply nth_error_Some. congruence.
+    + exists a', o'. split; [exact L|].
+      assert (a' <> a) by (intros ->; apply Hn; eapply lookup_nodup_inj; eauto).
+      assert (j' <> j) by (intros ->; apply Hn; eapply sidx_inj; eauto).
+      rewrite U7, nth_error_upd_neq; auto.
+  - intros k cl scl H1 H2. rewrite U4 in H1. rewrite U5. eauto.
+Qed.
+
+(* a write to the cell of a variable visible in the current frame, mirrored in its slot *)
+Lemma write_local en sc r r1 s s1 t t1 x i k a o :
+  FrameRel en sc r s t -> sassoc x (sc_entries sc) = Some (i, k) -> lookup x en = Some a ->
+  cells_upd s s1 a o -> sub r r1 -> (forall a', dom r1 a' -> dom r a' \/ a' = a) ->
+  (forall j, j <> i -> fget (cur t1) j = fget (cur t) j) ->
+  (if k then (fget (cur t1) i = FEmpty /\ o = None /\ ~ dom r1 a) \/ (exists c, fget (cur t1) i = FCell c /\ r1 a c)
+   else ~ dom r1 a /\ forall v, o = Some v -> fget (cur t1) i = FVal v) ->
+  FrameRel en sc r1 s1 t1 /\ PostC (own en sc) r r1 s s1 /\ FPf sc t t1.
+Proof.
+  intros [A1 A2 A3 A4] Ex La (U1 & U2 & U3 & U4 & U5 & U6 & U7) Hs Hdom Hfr Hslot.
+  split; [|split].
+  - constructor; auto.
+    + intros b Hb. rewrite U5. auto.
+    + intros y. pose proof (A4 y) as Hy. destruct (sassoc y (sc_entries sc)) as [[j [|]]|] eqn:Ey; auto.
+      * destruct Hy as (b & Lb & Hg & Hc). exists b. split; [exact Lb|]. split; [exact Hg|].
+        destruct (Nat.eq_dec b a) as [->|Hn].
+        -- assert (y = x) by (eapply lookup_nodup_inj; eauto). subst y. rewrite Ex in Ey. inversion Ey; subst j k.
+           destruct Hslot as [(E1 & -> & E3)|Hc']; [left; auto|right; exact Hc'].
+        -- assert (j <> i) by (intros ->; apply Hn; assert (y = x) by (eapply A3; eauto); subst y; congruence).
+           rewrite Hfr, U7 by assumption.
+           destruct Hc as [(E1 & E2 & E3)|(c & E1 & E2)]; [left|right; exists c; auto].
+           split; [exact E1|]. split; [exact E2|]. intros Hd. destruct (Hdom b Hd); auto.
+      * destruct Hy as (b & Lb & Hd & Hg & Hv). exists b. split; [exact Lb|].
+        destruct (Nat.eq_dec b a) as [->|Hn].
+        -- assert (y = x) by (eapply lookup_nodup_inj; eauto). subst y. rewrite Ex in Ey. inversion Ey; subst j k.
+           destruct Hslot as [Hd' Hv']. split; [exact Hd'|]. split; [exact Hg|].
+           intros v Hv2. apply Hv'. congruence.
+        -- assert (j <> i) by (intros ->; apply Hn; assert (y = x) by (eapply A3; eauto); subst y; congruence).
+           rewrite Hfr, U7 by assumption. split; [|split; [exact Hg|exact Hv]].
+           intros Hd'. destruct (Hdom b Hd'); auto.
+  - constructor; auto.
+    + lia.
+    + intros a' Hlt Ho _ _. apply U7. intros ->. apply Ho. exists x, (i, k). auto.
+    + intros a' Hd. destruct (Hdom a' Hd) as [?| ->]; auto. right. right. exists x, (i, k). auto.
+  - intros j Hb Hv. apply Hfr. intros ->. apply Hv. exists x, k. exact Ex.
+Qed.
+
+(* ---- reading a variable ------------------------------------------------------------------------------------------ *)
+Lemma sim_load en sc x v n : cvar mods sc x = Some v -> simF en sc (eval (S n) en (EVar x)) (load_var v).
+Proof.
+  intros Hc r s t G F. cbn [eval]. unfold cvar in Hc. pose proof (f_vars _ _ _ _ _ F x) as Hx.
+  destruct (sassoc x (sc_entries sc)) as [[i [|]]|].
+  - inversion Hc; subst v. destruct Hx as (a & La & Hg & [(E1 & E2 & E3)|(c & E1 & E2)]); rewrite La; unfold get_cell.
+    + rewrite E2. exact Logic.I.
+    + destruct (g_cells _ _ _ G a c E2) as (B1 & B2 & B3 & B4). unfold load_var. rewrite E1. unfold lift, get_cell.
+      rewrite <- B3. destruct (nth_error (cells s) a) as [[w|]|]; try exact Logic.I.
+      rewrite with_base_id. apply rres_ok_refl; [apply okF|exact G|exact F].
+  - inversion Hc; subst v. destruct Hx as (a & La & Hd & Hg & Hv). rewrite La. unfold get_cell.
+    destruct (nth_error (cells s) a) as [[w|]|] eqn:E; try exact Logic.I.
+    unfold load_var. rewrite (Hv w eq_refl). apply rres_ok_refl; [apply okF|exact G|exact F].
+  - destruct (mem x (sc_hidden sc)); [discriminate|]. rewrite (Hx eq_refl).
+    destruct (sidx x mods) as [j|] eqn:Ej.
+    + inversion Hc; subst v. destruct (g_mods _ _ _ G x j Ej) as (a & o & La & E1 & E2). rewrite La. unfold get_cell, load_var.
+      rewrite E1, E2. destruct o as [w|]; [|exact Logic.I]. apply rres_ok_refl; [apply okF|exact G|exact F].
+    + rewrite (genv_mods x Ej). rewrite <- mem_eq. destruct (mem x builtin_names); [|discriminate].
+      inversion Hc; subst v. apply rres_ok_refl; [apply okF|exact G|exact F].
+Qed.
+
+(* ---- assigning a variable ---------------------------------------------------------------------------------------- *)
+Lemma sim_store en sc x v val : cvar mods sc x = Some v ->
+  simF en sc (match lookup x en with Some a => set_cell a val | None => fail Unbound end) (store_var v val).
+Proof.
+  intros Hc r s t G F. unfold cvar in Hc. pose proof (f_vars _ _ _ _ _ F x) as Hx.
+  destruct (sassoc x (sc_entries sc)) as [[i [|]]|] eqn:Ex.
+  - (* a captured local *)
+    inversion Hc; subst v. destruct Hx as (a & La & Hg & Hcase). rewrite La.
+    pose proof (f_bound _ _ _ _ _ F a (lookup_In _ _ _ La)) as Hlt.
+    pose proof (cells_upd_set s a val Hlt) as U. unfold set_cell, rres, store_var.
+    destruct Hcase as [(E1 & E2 & E3)|(c & E1 & E2)]; rewrite E1.
+    + (* first assignment: the machine allocates the cell *)
+      unfold sbind, lift, alloc_cell, set_slot. cbn [base with_base cur].
+      split; [reflexivity|]. exists (ext r a (length (cells (base t)))).
+      split; [eapply GInv_share_new; eauto|].
+      eapply write_local; eauto.
+      * apply sub_ext.
+      * intros a' [c' [H|[-> _]]]; [left; exists c'; exact H|right; reflexivity].
+      * intros j Hj. cbn [cur with_cur with_base]. apply fget_fset_neq. auto.
+      * right. exists (length (cells (base t))). cbn [cur with_cur with_base]. rewrite fget_fset_eq. split; [reflexivity|]. right. auto.
+    + unfold lift, set_cell. split; [reflexivity|]. exists r. split; [eapply GInv_shared_write; eauto|].
+      eapply write_local; eauto.
+      * apply sub_refl.
+      * right. exists c. auto.
+  - (* a plain local *)
+    inversion Hc; subst v. destruct Hx as (a & La & Hd & Hg & Hv). rewrite La.
+    pose proof (f_bound _ _ _ _ _ F a (lookup_In _ _ _ La)) as Hlt.
+    pose proof (cells_upd_set s a val Hlt) as U. unfold set_cell, store_var, set_slot, rres.
+    split; [reflexivity|]. exists r. split; [eapply GInv_priv_write; eauto|].
+    eapply write_local; eauto.
+    + apply sub_refl.
+    + intros j Hj. cbn [cur with_cur]. apply fget_fset_neq. auto.
+    + split; [exact Hd|]. intros w Hw. inversion Hw; subst. cbn [cur with_cur]. apply fget_fset_eq.
+  - destruct (mem x (sc_hidden sc)); [discriminate|]. rewrite (Hx eq_refl).
+    destruct (sidx x mods) as [j|] eqn:Ej.
+    + (* a module variable *)
+      inversion Hc; subst v. destruct (g_mods _ _ _ G x j Ej) as (a & o & La & E1 & E2). rewrite La.
+      assert (Hlt : a < length (cells s)) by (apply nth_error_Some; congruence).
+      pose proof (cells_upd_set s a val Hlt) as U. unfold set_cell, store_var, rres.
+      split; [reflexivity|]. exists r. split; [eapply GInv_mod_write; eauto|].
+      destruct U as (U1 & U2 & U3 & U4 & U5 & U6 & U7).
+      assert (Hna : forall y e b, sassoc y (sc_entries sc) = Some e -> lookup y en = Some b -> b <> a).
+      { intros y [i' k'] b Ey Ly ->. pose proof (f_vars _ _ _ _ _ F y) as Hy. rewrite Ey in Hy.
+        destruct k'; [destruct Hy as (b & Lb & Hg & _)|destruct Hy as (b & Lb & _ & Hg & _)];
+          apply Hg; assert (b = a) by congruence; subst b; eapply lookup_In; eauto. }
+      split; [|split].
+      * destruct F as [A1 A2 A3 A4]. constructor; auto.
+        -- intros b Hb. cbn [cells]. rewrite length_upd. auto.
+        -- intros y. specialize (A4 y). cbn [cur cells]. destruct (sassoc y (sc_entries sc)) as [[i' [|]]|] eqn:Ey; auto.
+           ++ destruct A4 as (b & Lb & Hg & Hcase). exists b. split; [exact Lb|]. split; [exact Hg|].
+              rewrite nth_error_upd_neq; [exact Hcase|]. intros <-. eapply Hna; eauto.
+           ++ destruct A4 as (b & Lb & Hd & Hg & Hv). exists b. split; [exact Lb|]. split; [exact Hd|]. split; [exact Hg|].
+              rewrite nth_error_upd_neq; [exact Hv|]. intros <-. eapply Hna; eauto.
+      * constructor; auto using sub_refl.
+        -- cbn [cells]. rewrite length_upd. lia.
+        -- intros a' _ _ _ Hg. cbn [cells]. apply nth_error_upd_neq. intros <-. apply Hg. eapply lookup_In; eauto.
+      * intros i' _ _. reflexivity.
+    + rewrite (genv_mods x Ej). cbn. exact Logic.I.
+Qed.
+
+(* ================================================================================================================ *)
+(* Part C.3: building a closure *)
+Lemma FrameRel_ext en sc r s t s' t' : FrameRel en sc r s t -> cells s' = cells s -> cur t' = cur t -> FrameRel en sc r s' t'.
+Proof.
+  intros [A1 A2 A3 A4] E Ec. constructor; auto.
+  - rewrite E. exact A2.
+  - intros x. specialize (A4 x). rewrite Ec, E. exact A4.
+Qed.
+
+Definition pslot (sc : scope) (x : string) : nat :=
+  match sassoc x (sc_entries sc) with Some (i, _) => i | None => 0 end.
+
+Lemma capture_ok en sc r s t x i :
+  GInv r s t -> FrameRel en sc r s t -> sassoc x (sc_entries sc) = Some (i, true) ->
+  exists r1 t1 c a, capture_slot i t = SOk c t1 /\ lookup x en = Some a /\ r1 a c /\
+    GInv r1 s t1 /\ FrameRel en sc r1 s t1 /\ PostC (own en sc) r r1 s s /\ FPf sc t t1.
+Proof.
+  intros G F Ex. pose proof (f_vars _ _ _ _ _ F x) as Hx. rewrite Ex in Hx.
+  destruct Hx as (a & La & Hg & [(E1 & E2 & E3)|(c & E1 & E2)]).
+  - pose proof (f_bound _ _ _ _ _ F a (lookup_In _ _ _ La)) as Hlt.
+    pose proof (cells_upd_same s a None E2) as U.
+    unfold capture_slot. rewrite E1. unfold sbind, lift, alloc_cell, set_slot, sret. cbn [base with_base cur].
+    eexists (ext r a (length (cells (base t)))), _, _, a. split; [reflexivity|]. split; [exact La|].
+    split; [right; auto|]. split; [eapply GInv_share_new; eauto|].
+    eapply write_local; eauto.
+    + apply sub_ext.
+    + intros a' [c' [H|[-> _]]]; [left; exists c'; exact H|right; reflexivity].
+    + intros j Hj. cbn [cur with_cur with_base]. apply fget_fset_neq. auto.
+    + right. exists (length (cells (base t))). cbn [cur with_cur with_base]. rewrite fget_fset_eq. split; [reflexivity|]. right. auto.
+  - unfold capture_slot. rewrite E1. exists r, t, c, a. split; [reflexivity|]. split; [exact La|]. split; [exact E2|].
+    split; [exact G|]. split; [exact F|]. split; [apply PostC_refl|]. intros j _ _. reflexivity.
+Qed.
+
+Lemma capture_all en sc xs : forall r s t,
+  GInv r s t -> FrameRel en sc r s t ->
+  (forall x, In x xs -> exists i, sassoc x (sc_entries sc) = Some (i, true)) ->
+  exists r1 t1 cs, smapM capture_slot (map (pslot sc) xs) t = SOk cs t1 /\
+    Forall2 (fun x c => exists a, lookup x en = Some a /\ r1 a c) xs cs /\
+    GInv r1 s t1 /\ FrameRel en sc r1 s t1 /\ PostC (own en sc) r r1 s s /\ FPf sc t t1.
+Proof.
+  induction xs as [|x xs IH]; intros r s t G F Hall.
+  - exists r, t, []. cbn. split; [reflexivity|]. split; [constructor|]. split; [exact G|]. split; [exact F|].
+    split; [apply PostC_refl|]. intros j _ _. reflexivity.
+  - destruct (Hall x (or_introl eq_refl)) as [i Ex].
+    destruct (capture_ok en sc r s t x i G F Ex) as (r1 & t1 & c & a & E1 & La & Hr & G1 & F1 & P1 & Q1).
+    destruct (IH r1 s t1 G1 F1 (fun y Hy => Hall y (or_intror Hy))) as (r2 & t2 & cs & E2 & Hf & G2 & F2 & P2 & Q2).
+    exists r2, t2, (c :: cs). cbn [map smapM]. unfold sbind at 1. unfold pslot at 1. rewrite Ex, E1.
+    unfold sbind at 1. rewrite E2. cbn [sret]. split; [reflexivity|].
+    split; [constructor; [exists a; split; [exact La|apply (p_sub _ _ _ _ _ P2); exact Hr]|exact Hf]|].
+    split; [exact G2|]. split; [exact F2|]. split; [eapply PostC_trans; eassumption|].
+    intros j Hb Hv. rewrite Q2, Q1; auto.
+Qed.
+
+Lemma indexed_cons {X} k (x : X) l : indexed k (x :: l) = (k, x) :: indexed (S k) l.
+Proof. reflexivity. Qed.
+
+Lemma parents_fst sc n P :
+  map fst (map (fun jx : nat * string => (match sassoc (snd jx) (sc_entries sc) with Some (i, _) => i | None => 0 end, fst jx))
+               (indexed n P)) = map (pslot sc) P.
+Proof.
+  revert n. induction P as [|x P IH]; intros n; [reflexivity|]. rewrite indexed_cons. cbn [map fst snd]. rewrite IH. reflexivity.
+Qed.
+Lemma parents_snd sc n P :
+  map snd (map (fun jx : nat * string => (match sassoc (snd jx) (sc_entries sc) with Some (i, _) => i | None => 0 end, fst jx))
+               (indexed n P)) = seq n (length P).
+Proof.
+  revert n. induction P as [|x P IH]; intros n; [reflexivity|]. rewrite indexed_cons. cbn [map fst snd length seq]. rewrite IH. reflexivity.
+Qed.
+
+Lemma fun_scope_inv sc slotnames capt free sc' parents n P :
+  fun_scope sc slotnames capt free = Some (sc', parents, n) ->
+  P = filter (is_local sc) (dedup free) ->
+  (forall x, In x P -> exists i, sassoc x (sc_entries sc) = Some (i, true)) /\
+  map fst parents = map (pslot sc) P /\ map snd parents = seq (length slotnames) (length P) /\
+  n = length slotnames + length P /\
+  sc' = {| sc_entries := map (fun ix => (snd ix, (fst ix, capt (snd ix)))) (indexed 0 slotnames) ++
+                         map (fun jx => (snd jx, (fst jx, true))) (indexed (length slotnames) P);
+           sc_hidden := map fst (sc_entries sc) ++ sc_hidden sc |}.
+Proof.
+  unfold fun_scope. intros H ->.
+  destruct (forallb _ (filter (is_local sc) (dedup free))) eqn:Ef; [|discriminate]. inversion H; subst. clear H.
+  split; [|split; [apply parents_fst|split; [apply parents_snd|auto]]].
+  intros x Hx. rewrite forallb_forall in Ef. specialize (Ef x Hx).
+  destruct (sassoc x (sc_entries sc)) as [[i [|]]|]; try discriminate. eauto.
+Qed.
+
+Lemma GInv_alloc_clo r s t cl scl :
+  GInv r s t -> clo_rel r (length (cells s)) cl scl ->
+  GInv r {| lists := lists s; dicts := dicts s; cells := cells s; clos := clos s ++ [cl]; out := out s |}
+         {| base := base t; sclos := sclos t ++ [scl]; smods := smods t; cur := cur t |}.
+Proof.
+  intros G Hc. destruct G. constructor; cbn [lists dicts cells clos out base sclos smods cur]; auto.
+  - rewrite !app_length. cbn. lia.
+  - intros k cl' scl' H1 H2. destruct (Nat.lt_ge_cases k (length (clos s))) as [Hlt|Hge].
+    + rewrite nth_error_app1 in H1 by assumption. rewrite nth_error_app1 in H2 by lia. eauto.
+    + rewrite nth_error_app2 in H1 by assumption. rewrite nth_error_app2 in H2 by lia.
+      rewrite g_clen0 in H1. destruct (k - length (sclos t)) as [|[|?]]; cbn in H1, H2; try discriminate.
+      inversion H1; inversion H2; subst. exact Hc.
+Qed.
+
+Lemma erase_param_of sc k ps ps' k' :
+  omapS (cparam true mods sc) k ps = Some (ps', k') -> map param_of ps' = map erase_default ps.
+Proof.
+  revert k ps' k'. induction ps as [|p ps IH]; intros k ps' k' H; cbn [omapS] in H.
+  - inversion H. reflexivity.
+  - destruct (cparam true mods sc k p) as [[p' k1]|] eqn:Ep; [|discriminate].
+    destruct (omapS (cparam true mods sc) k1 ps) as [[ps1 k2]|] eqn:Er; [|discriminate]. inversion H; subst.
+    cbn [map]. rewrite (IH _ _ _ Er). f_equal.
+    destruct p as [x [d|]|x|x]; cbn [cparam] in Ep.
+    + destruct (cexpr true mods sc k d) as [[d' ?]|]; [|discriminate]. inversion Ep. reflexivity.
+    + inversion Ep. reflexivity.
+    + inversion Ep. reflexivity.
+    + inversion Ep. reflexivity.
+Qed.
+
+(* the closure built by the machine is related to the closure of the reference interpreter *)
+Lemma sim_make_closure en sc name ps ps' dflts info body body' sc' slotnames capt free n :
+  map param_of ps' = map erase_default ps ->
+  NoDup (map param_name ps) ->
+  (forall x, In x slotnames <-> In x (map param_name ps ++ locals_of body)) ->
+  NoDup slotnames ->
+  fun_scope sc slotnames capt free = Some (sc', di_parents info, n) ->
+  di_names info = slotnames ->
+  di_wrap info = wrap_slots slotnames (map param_name ps) capt ->
+  body_compiled sc' n body body' (di_nslots info) ->
+  simF en sc (alloc_clo {| c_name := name; c_params := ps; c_defaults := concat dflts; c_body := body; c_env := en |})
+             (make_closure name ps' dflts info body').
+Proof.
+  intros Hps Hnd Hnames Hsnd Hfs Hdn Hw Hb r s t G F.
+  destruct (fun_scope_inv _ _ _ _ _ _ _ _ Hfs eq_refl) as (Hall & Hpf & _ & _ & _).
+  destruct (capture_all en sc _ r s t G F Hall) as (r1 & t1 & cs & E1 & Hf & G1 & F1 & P1 & Q1).
+  unfold make_closure, sbind. rewrite Hpf, E1. unfold alloc_clo, salloc_clo, rres.
+  split; [rewrite (g_clen _ _ _ G1); reflexivity|]. exists r1.
+  split; [|split; [|split; [exact P1|exact Q1]]].
+  - apply GInv_alloc_clo; [exact G1|].
+    econstructor; cbn [c_params c_defaults c_body c_env sc_params sc_defaults sc_info sc_body sc_captured]; eauto.
+    + apply (f_nodup _ _ _ _ _ F).
+    + apply (f_bound _ _ _ _ _ F).
+    + intros x Hl Hh. pose proof (f_vars _ _ _ _ _ F x) as Hx. unfold is_local in Hl.
+      destruct (sassoc x (sc_entries sc)); [discriminate|]. auto.
+  - eapply FrameRel_ext; [exact F1| |]; reflexivity.
+Qed.
